@@ -24,6 +24,42 @@ UNITS = [
             && (!ignore_inode || p_node.meta.inode == 0 || node.meta.inode == 0 || p_node.meta.inode == node.meta.inode)),
 """),
 ]
+UNITS += [
+    # the body of the closure that `p_node` hands to filter_map: one step of the sorted merge over ONE parent tree
+    Unit(name="p_node_lookup", file=PA, kind="block", within="fn p_node(&mut self, name: &OsStr) -> impl Iterator<Item = &Node>",
+         anchor="let p_nodes = &tree.nodes;", block_end="        })",
+         block_sig="fn p_node_lookup<'a>(tree: &'a PTree, idx: &mut usize, name: &NameR) -> (r: Option<&'a PNode>)",
+         block_tail="            vret",
+         functions=["archiver::parent::Parent::p_node (body of the closure given to filter_map: lookup of a name in one parent tree, advancing its cursor)"],
+         rewrites=[
+             Rw("            loop {\n", "            let mut vret: Option<&PNode> = None; loop {\n", why="`loop { .. break value .. }` as an expression -> result variable + plain break (Verus has no break-with-value)"),
+             Rw(r"=> break ([A-Za-z_()]+),", r"=> { vret = \1; break; }", regex=True, count=None, why="break-with-value in a match arm -> assignment + break"),
+             Rw(r"(?m)^(\s*)break ([A-Za-z_()]+);", r"\1vret = \2; break;", regex=True, count=None, why="break-with-value statement -> assignment + break"),
+             Rw("(*p_node.name()).cmp(name)", "p_node.name().cmp(name)", why="Cow<OsStr> deref -> name stub"),
+         ],
+         contract="""
+    requires *old(idx) <= tree.nodes@.len(), tree.nodes@.len() <= usize::MAX,  // the latter holds for every Vec
+    ensures
+        *old(idx) <= *final(idx) <= tree.nodes@.len(),
+        // every node the cursor passed has a smaller name
+        /*@cursor_only_skips_smaller_names*/ forall|i: int| *old(idx) <= i < *final(idx) ==> name_lt((#[trigger] tree.nodes@[i]).name, *name),
+        /*@found_node_has_the_name*/ r matches Some(n) ==> *final(idx) < tree.nodes@.len() && *n == tree.nodes@[*final(idx) as int] && n.name == *name,
+        /*@not_found_means_cursor_at_larger_name_or_end*/ r is None ==> *final(idx) == tree.nodes@.len() || name_lt(*name, tree.nodes@[*final(idx) as int].name),
+""",
+         loops={1: """
+                invariant
+                    *old(idx) <= *idx <= tree.nodes@.len(), p_nodes@ == tree.nodes@, tree.nodes@.len() <= usize::MAX,
+                    forall|i: int| *old(idx) <= i < *idx ==> name_lt((#[trigger] tree.nodes@[i]).name, *name),
+                ensures
+                    *old(idx) <= *idx <= tree.nodes@.len(),
+                    forall|i: int| *old(idx) <= i < *idx ==> name_lt((#[trigger] tree.nodes@[i]).name, *name),
+                    vret matches Some(n) ==> *idx < tree.nodes@.len() && *n == tree.nodes@[*idx as int] && n.name == *name,
+                    vret is None ==> *idx == tree.nodes@.len() || name_lt(*name, tree.nodes@[*idx as int].name),
+                decreases tree.nodes@.len() - *idx,
+"""},
+         ),
+]
+
 M = "archiver::parent::verif_kani::"
 KANI = [
     Harness(M + "c11_is_parent_requires_equal_metadata", kind="bounded",
